@@ -165,6 +165,9 @@ func gen(r *hx.Rng, tier string) Case {
 	}
 	c.Sched = genSched(r)
 	c.BadNeighbour = r.Chance(1, 4)
+	if r.Chance(1, 5) {
+		c.Coalesce = []string{"doubleclose", "raw"}[r.Intn(2)]
+	}
 	return c
 }
 
@@ -260,6 +263,10 @@ func corpus() []Case {
 	return []Case{
 		{Files: base, ChunkSize: 64, Level: 9, Sched: all},
 		{Files: base, ChunkSize: 64, MinChunkSize: 1000, Level: 1, Sched: all, BadNeighbour: true},
+		// failing Batch calls behind every Batch call site of a healthy layer (root node, metadata, streams, Close)
+		{Files: base, ChunkSize: 16, MinChunkSize: 1000, Level: 1, Sched: []string{"open:m", "close:m"}, Coalesce: "doubleclose"},
+		{Files: base, ChunkSize: 64, Level: 9, Sched: []string{"open:m", "open:a", "close:a"}, Coalesce: "raw"},
+		{Files: base, ChunkSize: 50, MinChunkSize: 200, Level: 9, Sched: all, Coalesce: "doubleclose", Ops: []Mut{{Op: "dropdir", I: 0}, {Op: "root", J: 0, S: "./", N: 1}}},
 		{Files: nil, ChunkSize: 64, Level: 9, Sched: []string{"open:m", "open:c"}},
 		{Files: base, ChunkSize: 50, Level: 9, Ops: []Mut{{Op: "root", J: 0, S: "./", N: 1}}},
 		{Files: base, ChunkSize: 50, Level: 9, Ops: []Mut{{Op: "dup", I: 0, J: 3, N: 0}}},
